@@ -44,10 +44,12 @@ RULE = ('8 base workflows (direct: one component consuming a data file inside it
         '(executable x arguments over concatenations of {a, executable}; ("ab","c")/("a","bc"); executable x file list '
         'with executables that contain "files<md5>:method"; image x arguments with "commandarguments" inside). '
         'thorough adds every pair of variations of two different aspect families per base and a larger ambiguity '
-        'alphabet; VERIF_SEED rotates a 1/32 stratum of those pairs into the quick tier. Every world is a separate '
+        'alphabet; VERIF_SEED rotates a 1/64 stratum of those pairs into the quick tier. Every world is a separate '
         'real instance. A case = one (parent, variant) pair, non-trivial when the two worlds differ; distinct = '
-        'distinct (base, variation path); all other pairs of records are judged through the partition comparison '
-        '(counted in all_pairs_judged).')
+        'distinct (base, variation path); all other pairs of records (every component of every world, producers '
+        'included) are judged through the partition comparison (counted in all_pairs_judged). Worlds that the '
+        'product\'s loader / validator refuses (e.g. a :ref reference that is not used in the arguments) are counted '
+        'and not judged.')
 
 ASSUMPTIONS = [
     'the work descriptor is written from the statement: executable (after variable interpolation), the argument string '
@@ -100,7 +102,7 @@ def world_table(thorough, seed):
                 if ('%s|%s' % (bn, l2)) not in _single_ids(bn, singles):
                     continue   # a variation that only exists on the variant (keeps both parents well defined)
                 k += 1
-                if not thorough and (k + seed) % 32 != 0:
+                if not thorough and (k + seed) % 64 != 0:
                     continue
                 if not thorough and (g1 == 'missing' or g2 == 'missing'):
                     continue
@@ -129,8 +131,8 @@ def observe_world(world):
     with scratch_dir('c16-') as root:
         try:
             obs = G.realise(world, root)
-        except Exception as e:
-            return {'_rejected': '%s: %s' % (type(e).__name__, str(e)[:300])}
+        except G.Rejected as e:
+            return {'_rejected': str(e)}
     out = {}
     for c in world['comps']:
         n = c['name']
